@@ -28,6 +28,9 @@ type PropDef struct {
 	NotCov    []string `json:"not_covered"`
 	Assume    []string `json:"assumptions"`
 	Bounded   []string `json:"bounded"`
+	// CountSafety: a safety sweep. The safety obligations (nil, index, slice, typeassert, ...) left open per function and kind
+	// may not become more than on the reference tree: ordinals shift with edits, their number does not.
+	CountSafety bool `json:"count_safety"`
 	// Select restricts, per unit, which obligations count for this property (substring match on the
 	// obligation name); units without an entry count in full.
 	Select map[string][]string `json:"select"`
@@ -103,6 +106,9 @@ func loadBaseline(id string) map[string]bool {
 		if l == "" || strings.HasPrefix(l, "#") {
 			continue
 		}
+		if strings.HasPrefix(l, "~open") {
+			continue
+		}
 		if i := strings.Index(l, "\t"); i >= 0 {
 			out[l[:i]] = true
 		} else {
@@ -110,6 +116,29 @@ func loadBaseline(id string) map[string]bool {
 		}
 	}
 	return out
+}
+
+// loadBaselineOpen: obligations that were open (undecided or known findings) on the reference tree.
+func loadBaselineOpen(id string) map[string]bool {
+	out := map[string]bool{}
+	data, err := os.ReadFile(filepath.Join(verifRoot, "baseline", id+".txt"))
+	if err != nil {
+		return out
+	}
+	for _, l := range strings.Split(string(data), "\n") {
+		if strings.HasPrefix(l, "~open\t") {
+			out[strings.TrimSpace(l[6:])] = true
+		}
+	}
+	return out
+}
+
+// unitKindOf: "<unit>/<kind>" of a safety obligation name "<unit>/<kind>#<n>".
+func unitKindOf(name string) string {
+	if i := strings.LastIndex(name, "#"); i >= 0 {
+		return name[:i]
+	}
+	return name
 }
 
 func kindWanted(p *PropDef, kind string) bool {
@@ -258,6 +287,53 @@ func cmdCheck(args []string) int {
 		}
 		reports = append(reports, oblReport{j.obl.Name, j.obl.Kind, j.obl.Pos, trunc(j.obl.Text, 160), res, j.res.Solver, j.res.Ms, j.queries})
 	}
+	if p.CountSafety && len(baseline) > 0 && !*writeBaseline {
+		open0 := loadBaselineOpen(id)
+		base := map[string]int{}
+		for n := range open0 {
+			base[unitKindOf(n)]++
+		}
+		cur := map[string][]*job{}
+		for _, j := range undecided {
+			if !contractKind(j.obl.Kind) {
+				cur[unitKindOf(j.obl.Name)] = append(cur[unitKindOf(j.obl.Name)], j)
+			}
+		}
+		curFailed := map[string]int{}
+		for _, j := range failed {
+			if !contractKind(j.obl.Kind) {
+				curFailed[unitKindOf(j.obl.Name)]++
+			}
+		}
+		promoted := map[*job]bool{}
+		for uk, js := range cur {
+			excess := len(js) + curFailed[uk] - base[uk]
+			// first the ones that were not open under this very name, then (ordinals may have shifted) the last ones
+			for i := len(js) - 1; i >= 0 && excess > 0; i-- {
+				if !open0[js[i].obl.Name] {
+					promoted[js[i]] = true
+					excess--
+				}
+			}
+			for i := len(js) - 1; i >= 0 && excess > 0; i-- {
+				if !promoted[js[i]] {
+					promoted[js[i]] = true
+					excess--
+				}
+			}
+		}
+		if len(promoted) > 0 {
+			var rest []*job
+			for _, j := range undecided {
+				if promoted[j] {
+					failed = append(failed, j)
+				} else {
+					rest = append(rest, j)
+				}
+			}
+			undecided = rest
+		}
+	}
 	var missing []string
 	for n := range baseline {
 		if !seen[n] {
@@ -339,6 +415,14 @@ func cmdCheck(args []string) int {
 		sort.Slice(discharged, func(a, c int) bool { return discharged[a].obl.Name < discharged[c].obl.Name })
 		for _, j := range discharged {
 			fmt.Fprintf(&b, "%s\t%s\t%d\n", j.obl.Name, j.res.Solver, j.res.Ms)
+		}
+		// obligations the provers leave open on the reference tree (not claimed); a safety sweep compares their number per
+		// function and kind
+		for _, j := range undecided {
+			fmt.Fprintf(&b, "~open\t%s\n", j.obl.Name)
+		}
+		for _, j := range failed {
+			fmt.Fprintf(&b, "~open\t%s\n", j.obl.Name)
 		}
 		os.MkdirAll(filepath.Join(verifRoot, "baseline"), 0o755)
 		os.WriteFile(filepath.Join(verifRoot, "baseline", id+".txt"), []byte(b.String()), 0o644)
